@@ -226,6 +226,13 @@ Theorem list_refines_list : forall ops, map strip_nodes (grun ginit ops) = llrun
 Proof. intros. apply list_refines_list_lemma. unfold grel. simpl. auto. Qed.
 Print Assumptions list_refines_list.
 
+(* node discipline: over both lists and both free chains every node occurs exactly once and was
+   allocated before — no node is ever in two places, and a recycled node was free *)
+Theorem list_nodes_unique : forall ops,
+  NoDup (ids_all (gfinal ginit ops)) /\ Forall (fun id => id < gnext (gfinal ginit ops)) (ids_all (gfinal ginit ops)).
+Proof. intros. apply list_nodes_unique_lemma. split; [constructor | constructor]. Qed.
+Print Assumptions list_nodes_unique.
+
 Example list_node_recycling :
   grun ginit [LPushB 5; LPushB 6; LPushF 4; LErase 1; LPushB 7; LClear; LPushB 8]
   = [Some (RNone, 1, [5], [0], 0); Some (RNone, 2, [5; 6], [0; 1], 0); Some (RNone, 3, [4; 5; 6], [2; 0; 1], 0);
